@@ -77,6 +77,15 @@ CHECKS = {
              "The cross product is exhaustive; the rest is sampled.",
         note="Among several genuine readings of one string only membership and determinism are asserted (the statement does not rank them). Two known findings (double prefixes) are listed in known_findings.json.",
         design="5/C08"),
+    "C09": dict(
+        technique="complete enumeration of every canonical unit x 7 format specs x {long, ~} with layout-specific inverse parsers (structural oracle) and parse-back round trips; Hypothesis compound units / quantities in float, Decimal and Fraction registries; op-sequence check of default_format changes on long-lived objects",
+        text="For each of the ~400 canonical units at exponents 1, 2, -1 and paired with /second**2, each of D, C, P, H, L, Lx in long and short form is "
+             "rendered and parsed back by a parser written for that layout; the multiset of (name or symbol, exponent, numerator/denominator) must match, and "
+             "D/C/P text must parse_units back to an equal unit (symbols only when R reads them back uniquely). Compound units with integer/fractional "
+             "exponents in all three numeric configurations, quantities with magnitude specs, str(q)/Quantity(str) round trips, the '#' modifier, "
+             "default_format sequences on held objects and sort functions are sampled. Formatting must never raise or alter its argument.",
+        note="Babel-localised output is outside the statement. One known finding: '%' / per-mille followed by a superscript in '~P'.",
+        design="5/C09"),
     "C20": dict(
         technique="complete enumeration of an independently curated table of ~260 standard values x spellings x {Fraction, float} registries (differential oracle: the table)",
         text="Each entry of data/standards.txt (SI and binary prefixes, SI units, defining constants, yard/pound multiples, US/imperial capacity, avoirdupois/"
